@@ -130,6 +130,33 @@ pub fn scan_discard(data: &[u8]) -> Scan {
     }
 }
 
+/// `data` is the incomplete beginning of a frame (try_frame says Incomplete): can it still become a valid frame, or is it
+/// already certain that it cannot (length octet below 5, or a block that is completely present fails its CRC)?
+pub fn doomed_prefix(data: &[u8]) -> bool {
+    if data.len() >= 3 && data[2] < 5 {
+        return true;
+    }
+    if data.len() < 10 || data[0] != 0x05 || data[1] != 0x64 {
+        return false;
+    }
+    let plen = data[2] as usize - 5;
+    let mut pos = 10;
+    let mut remaining = plen;
+    while remaining > 0 {
+        let n = remaining.min(16);
+        if data.len() < pos + n + 2 {
+            return false;
+        }
+        let c = u16::from_le_bytes([data[pos + n], data[pos + n + 1]]);
+        if c != crc16(&data[pos..pos + n]) {
+            return true;
+        }
+        pos += n + 2;
+        remaining -= n;
+    }
+    false
+}
+
 /// Close mode: frames back to back; the first offset that cannot start a frame is an error
 pub fn scan_close(data: &[u8]) -> Scan {
     let mut frames = Vec::new();
